@@ -24,6 +24,9 @@ func drawReadCfg(r *eng.Run, apps []int) ReadCfg {
 		cfg.CheckUTF8 = r.T.Bool(sim.LCfg)
 		cfg.Extended = r.T.Chance(sim.LCfg, 1, 4)
 		cfg.ProbeIdle = r.T.Chance(sim.LCfg, 1, 4)
+		if cfg.OnInter == 0 && !cfg.OnCont && !cfg.CheckUTF8 && r.T.Chance(sim.LCfg, 1, 2) {
+			cfg.PerFrame, cfg.ProbeIdle = true, false
+		}
 		if r.T.Chance(sim.LCfg, 1, 5) {
 			cfg.Bufio = []int{16, 64, 4096}[r.T.Int(sim.LSize, 3)]
 		}
@@ -103,7 +106,7 @@ func C04(r *eng.Run) {
 	if (cfg.App == AppReader || cfg.App == AppNextReader) && cfg.Bufio == 0 && !cfg.NoDiscard && r.T.Chance(sim.LFault, 1, 6) {
 		// One temporary read error inside the payload of a data frame; the
 		// application reads every unit to its end and retries.
-		cfg.Retry, cfg.NoDiscard = true, true
+		cfg.Retry, cfg.NoDiscard, cfg.PerFrame = true, true, false
 		p.Transient = TransientIn(r, s.Frames)
 	}
 	r.Note("C04 %s side=%d seg=%d eofWithData=%v stream: %s", cfg.Name(), cfg.Side, p.SegMode, p.EOFWithData, s.Describe())
